@@ -325,7 +325,7 @@ where
     Ok(())
 }
 
-fn check_script(c: &ScriptCase, cov: &mut Cov) -> CheckResult {
+pub fn check_script(c: &ScriptCase, cov: &mut Cov) -> CheckResult {
     match (c.st, c.f32) {
         (0, true) => script_generic::<f32, f32>(c, cov),
         (0, false) => script_generic::<f32, f64>(c, cov),
@@ -794,7 +794,7 @@ where
     Ok(())
 }
 
-fn check_kernel(c: &KernelCase, cov: &mut Cov) -> CheckResult {
+pub fn check_kernel(c: &KernelCase, cov: &mut Cov) -> CheckResult {
     if c.f32 {
         kernel_generic::<f32>(c, cov)
     } else {
